@@ -168,6 +168,9 @@ def instances(tier):
     for dt in (("float16", "float32") if q else ("float16", "float32", "float64")):
         t = 60 if q else 700
         out.append(dict(id="fp-lemma-%s" % dt, family="fp", dtype=dt, timeout_s=t, budget=dict(wall_s=t + 30, max_paths=4)))
+        # the same lemma for larger |x| (an absolute tolerance on x cannot be met once ulp(x) >= tol)
+        for lo, hi in ((4.0, 8.0), (64.0, 128.0)):
+            out.append(dict(id="fp-lemma-%s-x%g-%g" % (dt, lo, hi), family="fp", dtype=dt, timeout_s=t, xlo=lo, xhi=hi, budget=dict(wall_s=t + 30, max_paths=4)))
     out.sort(key=_cost, reverse=True)      # the pool starts instances in list order: expensive ones first
     return out
 
@@ -591,7 +594,7 @@ FP_FORMATS = {"float16": (5, 11), "float32": (8, 24), "float64": (11, 53)}
 FP_CHECK = "c14.fp.sign_change_between_adjacent_floats_is_accepted"
 
 
-def _fp_query(dtype, timeout_s):
+def _fp_query(dtype, timeout_s, xlo=0.5, xhi=2.0):
     """('sat', dict(x0=, s=, d=) exact Fractions) | ('unsat', None) | ('unknown', None)"""
     import z3
     eb, sb = FP_FORMATS[dtype]
@@ -608,7 +611,7 @@ def _fp_query(dtype, timeout_s):
     r1 = z3.fpSub(rm, z3.fpMul(rm, sv, x1), dv)
     sol = z3.SolverFor("QF_FP")
     sol.set("timeout", int(timeout_s * 1000))
-    sol.add(adjacent, z3.fpGT(x0, z3.FPVal(0.5, F)), z3.fpLT(x1, z3.FPVal(2.0, F)))
+    sol.add(adjacent, z3.fpGT(x0, z3.FPVal(xlo, F)), z3.fpLT(x1, z3.FPVal(xhi, F)))
     sol.add(z3.fpLEQ(sv, z3.FPVal(1000.0, F)), z3.fpGEQ(sv, z3.FPVal(-1000.0, F)))
     sol.add(z3.Not(z3.fpIsNaN(dv)), z3.Not(z3.fpIsInf(dv)))
     sol.add(z3.fpLT(r0, z3.fpNeg(tol)), z3.fpGT(r1, tol))
@@ -626,7 +629,7 @@ def _fp_query(dtype, timeout_s):
     return "sat", dict(x0=val(bx), s=val(z3.fpToIEEEBV(sv)), d=val(z3.fpToIEEEBV(dv)))
 
 
-def _fp_real_code(dt, s, d, x0):
+def _fp_real_code(dt, s, d, x0, xlo=0.5, xhi=2.0):
     """run the real brentsroot in dtype dt on f(x) = s*x - d; True iff the sign change is bracketed by the adjacent floats
     x0 < x1, both residuals exceed tol, and the solver reports failure on [x0, x1] as well as on [1/2, 2]"""
     import warnings
@@ -646,13 +649,13 @@ def _fp_real_code(dt, s, d, x0):
     with warnings.catch_warnings():
         warnings.simplefilter("ignore")
         xa, oka = opt.brentsroot(f, [x0, x1])
-        xb, okb = opt.brentsroot(f, [dt(0.5), dt(2.0)])
+        xb, okb = opt.brentsroot(f, [dt(xlo), dt(xhi)])
     out.update(narrow=dict(x=float(xa), success=bool(oka)), wide=dict(x=float(xb), success=bool(okb)))
     out["defect"] = (not bool(oka)) and (not bool(okb)) and float(xb) in (float(x0), float(x1))
     return out
 
 
-def _fp_transport_float64(s, x_start, span=4096):
+def _fp_transport_float64(s, x_start, span=4096, xlo=0.5, xhi=2.0):
     """float64 instance of the lemma with the witness slope: scan adjacent float64 pairs for one whose images fl(s*x) lie
     two or more ulps apart and put d in the middle"""
     dt = np.float64
@@ -664,7 +667,7 @@ def _fp_transport_float64(s, x_start, span=4096):
         x0 = dt(x_start)
         for _ in range(span):
             x1 = np.nextafter(x0, dt(np.inf))
-            if not (0.5 < x0 and x1 < 2.0):
+            if not (xlo < x0 and x1 < xhi):
                 break
             y0, y1 = sv * x0, sv * x1
             d = (y0 + y1) / 2
@@ -674,13 +677,13 @@ def _fp_transport_float64(s, x_start, span=4096):
     return None
 
 
-def _fp_on_real_code(c, dtype, s, d, x0):
+def _fp_on_real_code(c, dtype, s, d, x0, xlo=0.5, xhi=2.0):
     """the real code in the lemma's dtype, then the same slope transported to float64; True iff the defect shows"""
     dt = np.dtype(dtype).type
-    own = _fp_real_code(dt, s, d, x0)
+    own = _fp_real_code(dt, s, d, x0, xlo, xhi)
     c.note("real_code_" + dtype, own)
-    t = _fp_transport_float64(s, x0)
-    f64 = _fp_real_code(np.float64, *t) if t is not None else dict(defect=False, note="no float64 instance found near the witness")
+    t = _fp_transport_float64(s, x0, xlo=xlo, xhi=xhi)
+    f64 = _fp_real_code(np.float64, *t, xlo, xhi) if t is not None else dict(defect=False, note="no float64 instance found near the witness")
     c.note("real_code_float64" + ("_transported" if dtype == "float64" else ""), f64)
     return bool(own["defect"] or f64["defect"])
 
@@ -689,7 +692,7 @@ def _fp_lemma(c, inst):
     dtype = inst["dtype"]
     if c.symbolic:
         from srx import core
-        status, wit = _fp_query(dtype, inst.get("timeout_s", 60))
+        status, wit = _fp_query(dtype, inst.get("timeout_s", 60), inst.get("xlo", 0.5), inst.get("xhi", 2.0))
         c.note("qf_fp_result", status)
         if status == "unknown":
             raise core.BudgetHit("qf_fp_unknown")      # inconclusive, never success
@@ -699,14 +702,14 @@ def _fp_lemma(c, inst):
             return
         c.note("qf_fp_witness", {k: float(v) for k, v in wit.items()})
         # pure float runs of the real code on the bit-precise witness (recorded in the evidence sample; the verdict is the replay's)
-        defect = _fp_on_real_code(c, dtype, float(wit["s"]), float(wit["d"]), float(wit["x0"]))
+        defect = _fp_on_real_code(c, dtype, float(wit["s"]), float(wit["d"]), float(wit["x0"]), inst.get("xlo", 0.5), inst.get("xhi", 2.0))
         for k, v in wit.items():            # hand the witness to the float replay through the path inputs
             c.assume(c.eq(c.real(k), v))
         # the lemma only says that no representable point has a small residual; whether the REAL acceptance test still certifies the
         # bracketed sign change is decided by running the real code on the bit-precise witness
-        c.check(FP_CHECK, not defect, info=dict(dtype=dtype, witness={k: str(v) for k, v in wit.items()}), regions={KEY: True})
+        c.check(FP_CHECK, not defect, info=dict(dtype=dtype, witness={k: str(v) for k, v in wit.items()}, xrange=[inst.get("xlo", 0.5), inst.get("xhi", 2.0)]))
         return
-    c.check(FP_CHECK, not _fp_on_real_code(c, dtype, c.real("s"), c.real("d"), c.real("x0")))
+    c.check(FP_CHECK, not _fp_on_real_code(c, dtype, c.real("s"), c.real("d"), c.real("x0"), inst.get("xlo", 0.5), inst.get("xhi", 2.0)))
 
 
 REPLAY_TOL = 4 * EPS64
